@@ -451,7 +451,9 @@ func (pp c07) Run(c *core.Ctx, idx int) {
 			c.Count("params_" + pset)
 		}
 		// invalid parameter values must be errors
-		for _, bad := range []string{"depth=0", "depth=-1", "depth=abc", "depth=", "content=zz", "content=", "with-defaults=zz", "fc.range=nobang", "fc.range=l!x-y", "fc.range=l!", "fc.max-node-count=x", "fc.max-node-count=-1", "depth=1.5"} {
+		for _, bad := range []string{"depth=0", "depth=-1", "depth=abc", "depth=", "content=zz", "content=", "with-defaults=zz", "fc.range=nobang", "fc.range=l!x-y", "fc.range=l!", "fc.max-node-count=x", "fc.max-node-count=-1", "depth=1.5",
+			// a raw semicolon does not separate alternatives (it has to be written %3B): the parameter cannot be read
+			"fields=zz;yy", "depth=1;content=config", "fc.range=l!1-2-3", "fc.range=l!1-2-"} {
 			c.Eval()
 			var err error
 			var js string
@@ -468,6 +470,22 @@ func (pp c07) Run(c *core.Ctx, idx int) {
 				c.Violate("invalid-value-accepted/"+strings.SplitN(bad, "=", 2)[0]+"/"+invalidClass(bad), "the invalid parameter %q was answered with data instead of an error: %s", bad, head(js, 300))
 			}
 			c.Shape("invalid/%s", bad)
+			// the same parameters given to Constrain
+			c.Eval()
+			err = nil
+			if c.Guard("invalid (Constrain) "+bad, func() {
+				var sel *node.Selection
+				if sel, err = b.Root().Find(dp.PathString(tg.path)); err == nil && sel != nil {
+					if sel, err = sel.Constrain(bad); err == nil && sel != nil {
+						js, err = nodeutil.WriteJSON(sel)
+					}
+				}
+			}) {
+				continue
+			}
+			if err == nil {
+				c.Violate("invalid-value-accepted/"+strings.SplitN(bad, "=", 2)[0]+"/"+invalidClass(bad)+"/constrain", "Constrain(%q) was answered with data instead of an error: %s", bad, head(js, 300))
+			}
 		}
 	}
 }
